@@ -267,17 +267,26 @@ Qed.
     | (match ?c with _ => _ end) = _ => destruct c eqn:?
     end.
 
+  Lemma rf_finish_ok setid found f sid f' : rf_finish setid found f = RFOk sid f' -> f' = f.
+  Proof.
+    unfold rf_finish. intros H.
+    destruct (negb found); [discriminate H|].
+    destruct (pf_client f) as [cl|]; [|discriminate H].
+    destruct setid as [sid0|]; [|discriminate H].
+    injection H as _ <-. reflexivity.
+  Qed.
+
   Lemma read_file_go_main : forall fuel buf setid found f sid f',
     main_ok f -> read_file_go md5 fuel buf setid found f = RFOk sid f' -> main_ok f'.
   Proof.
     induction fuel as [|fuel IH]; intros buf setid found f sid f' Hf H; cbn [read_file_go] in H; [discriminate H|].
     destruct (read_next_packet md5 buf) as [| |psid ptype body rest].
     - (* end of input *)
-      destruct (negb found); [discriminate H|].
-      destruct (pf_client f) as [cl|]; [|discriminate H].
-      destruct setid as [sid0|]; [|discriminate H].
-      injection H as _ <-. exact Hf.
-    - discriminate H.
+      apply rf_finish_ok in H. rewrite H. exact Hf.
+    - (* damaged packet: skipped *)
+      destruct (find_magic (tl buf)) as [rest|].
+      + eapply IH; [exact Hf|exact H].
+      + apply rf_finish_ok in H. rewrite H. exact Hf.
     - hd_destruct H.
       { eapply IH; [exact Hf|exact H]. }
       destruct (bytes_eqb ptype TYPE_CREATOR).
@@ -359,7 +368,7 @@ Qed.
     - cbn [fst]. discriminate.
     - pose proof (io_read_np pa st) as NP.
       destruct (io_read pa st) as [[b|e|q] st1]; cbn [fst] in NP.
-      + destruct (read_file md5 (Some (d_setid d)) b) as [| |sid f].
+      + destruct (read_file_vol md5 (d_setid d) b) as [| |sid f].
         * cbn [fst]. discriminate.
         * apply IH.
         * lazymatch goal with |- fst (if ?c then _ else _) <> _ => destruct c end; [cbn [fst]; discriminate|].
